@@ -212,6 +212,17 @@ def conv(co: Codec, to, cn: Codec, tn, v):
                 return conv(co, to.cases[0][1], cn, tn, zero_value(co, to.cases[0][1]))
             return zero_value(cn, tn)
         return conv(co, to.cases[0][1], cn, tn, v[1])
+    if isinstance(to, U) and not isinstance(tn, U) and all(isinstance(co.res(t), P) for _, t in to.cases):
+        # a union replaced by the plain type of one of its cases: a value of that case keeps its value; what becomes of null and of the other cases
+        # (zero value or a runtime error) is not evaluated
+        if v is None or repr(co.res(to.cases[v[0]][1])) != repr(tn):
+            raise OutOfRange()
+        return v[1]
+    if isinstance(tn, U) and not isinstance(to, U) and isinstance(to, P) and all(isinstance(cn.res(t), P) for _, t in tn.cases):
+        for j, (_, tj) in enumerate(tn.cases):
+            if repr(cn.res(tj)) == repr(to):
+                return (j, v)
+        raise OutOfRange()
     if isinstance(to, P) and isinstance(tn, P):
         if to.name == tn.name or {to.name, tn.name} == {"uint64", "size"}:
             return v
@@ -449,6 +460,7 @@ def run(ctx):
     repo_models(ctx, home)
     fixed_width_record_scenarios(ctx, home)
     union_case_scenarios(ctx, home)
+    union_scalar_scenarios(ctx, home)
     parameter_name_scenarios(ctx, home)
     alias_dropped_scenarios(ctx, home)
     imported_record_scenario(ctx, home)
@@ -589,6 +601,36 @@ def alias_dropped_scenarios(ctx, home):
             _evolve_pair(ctx, home, "alias-and-base", "a record changed and the alias that names it dropped / renamed / introduced in the same step", "%s-%s" % (aname, cname), old, mk(fn, an, [("v0", old)], "v1"))
 
 
+def union_scalar_scenarios(ctx, home):
+    """a union (with and without null, the kept type first / in the middle / last) replaced by the plain type of one of its cases, and the other way round,
+    as step, stream item, vector item and record field. Values of the kept type keep their value in both directions; the value sets only hold such values
+    (what becomes of the other cases is not evaluated)."""
+    i32, i64, st, f64t = P("int32"), P("int64"), P("string"), P("float64")
+    for uname, cases, nullable, keep in (("null-int-long", [i32, i64], True, 1), ("null-long-int", [i64, i32], True, 0), ("string-long-double", [st, i64, f64t], False, 1),
+                                         ("null-string-double-long", [st, f64t, i64], True, 2), ("long-string", [i64, st], False, 0)):
+        u = U(tuple((None, t) for t in cases), nullable)
+
+        def mk(t, versions, d):
+            return Pkg("Evo", [Rec("Holder", [("gain", t), ("n", i32)]), Proto("Evo", [("threshold", t), ("samples", S(t)), ("vec", V(t)), ("holder", N("Holder")), ("holders", V(N("Holder"))), ("end", i32)])], [], versions, d)
+
+        def shaper(union_side):
+            def pick(x):
+                # every union value becomes a value of the kept case
+                val = x[1] if (isinstance(x, tuple) and x is not None and x[0] == keep) else 5000000000 + (hash(repr(x)) % 1000)
+                return (keep, val)
+
+            def f(side, vals):
+                if side != union_side:
+                    return vals
+                th, samples, vec, holder, holders, end = vals
+                return [pick(th), [pick(x) for x in samples], [pick(x) for x in vec], [pick(holder[0]), holder[1]], [[pick(h[0]), h[1]] for h in holders], end]
+            return f
+        old = mk(u, [], "v0")
+        _evolve_pair(ctx, home, "union-scalar", "a union replaced by the plain type of one of its cases", "union-to-scalar-%s" % uname, old, mk(i64, [("v0", old)], "v1"), value_sets=4, shape_values=shaper("old"))
+        old = mk(i64, [], "v0")
+        _evolve_pair(ctx, home, "union-scalar", "a plain type replaced by a union that holds it", "scalar-to-union-%s" % uname, old, mk(u, [("v0", old)], "v1"), value_sets=4, shape_values=shaper("new"))
+
+
 def parameter_name_scenarios(ctx, home):
     """protocol steps and record fields whose names are the names the generated C++ gives to its own parameters and locals (value, stream, item, ...), with
     a type that changed since v0 (converted, made optional, removed): the conversion code must not confuse the model's names with its own"""
@@ -608,7 +650,7 @@ def parameter_name_scenarios(ctx, home):
             _evolve_pair(ctx, home, "parameter-names", "steps / fields named like the generated code's own parameters", "%s%s-%s" % (a, "-steps-only" if fnames else "", cname), old, mk(*n, [("v0", old)], "v1"))
 
 
-def _evolve_pair(ctx, home, tag, what, name, old, new, write_labels=("v0",), value_sets=3):
+def _evolve_pair(ctx, home, tag, what, name, old, new, write_labels=("v0",), value_sets=3, shape_values=None):
     """generates `new` (which lists `old` as v0) and `old` alone, reads v0 streams with the newest reader (batch capacities 1 and 4) and writes v0
     with the newest writer; values against the documented conversion"""
     if True:
@@ -636,6 +678,8 @@ def _evolve_pair(ctx, home, tag, what, name, old, new, write_labels=("v0",), val
         bad = False
         for k in range(value_sets):
             vo = values.ValueGen(co, rng("C05fw", tag, name, k), quiet_nan_only=True, max_len=5).steps(po, stream_len=[1, 3, 6][k % 3])
+            if shape_values:
+                vo = shape_values("old", vo)
             try:
                 want = conv_protocol(co, po, cn, pn, vo)
             except OutOfRange:
@@ -648,6 +692,8 @@ def _evolve_pair(ctx, home, tag, what, name, old, new, write_labels=("v0",), val
                 if not judge(ctx, cn, pn, want, pr, sch_new, what + ", %s: v0 stream read by the newest reader (batch capacity %s)" % (name, bufs or 1), {"case_dir": base}, "read-old"):
                     bad = True
             vn = values.ValueGen(cn, rng("C05fww", tag, name, k), quiet_nan_only=True, max_len=5).steps(pn, stream_len=[1, 3, 6][k % 3])
+            if shape_values:
+                vn = shape_values("new", vn)
             try:
                 want_o = [conv_protocol(cn, pn, co, po, vn)]
             except OutOfRange:
